@@ -69,6 +69,7 @@ VEncode(ev) ==
            \o T(Len(ev.out.v) >= Len(prefix) /\ ~EmittedLengthsOk(ev.kind, ev.v, Drop(ev.out.v, Len(prefix))), "length-field")
            \o T(ev.kind = "avp" /\ Has(ev, "glen") /\ 6 + ev.glen # Len(ev.out.v) - Len(prefix), "get-length"))
      \o T(ev.kind = "avp" /\ Has(ev, "glen") /\ ev.glen # ValueLength(ev.v), "get-length-spec")
+     \o T(Has(ev, "glen_bad"), "get-length")         \* get_length() panicked or returned a wrapped value
      \o T(Has(ev, "solo") /\ ev.solo.t = "ok" /\ (ev.out.t # "ok" \/ ev.out.v # prefix \o ev.solo.v), "position-dependent")
      \o T(Has(ev, "solo") /\ ev.solo.t = "panic" /\ ev.out.t = "ok", "position-dependent")
      \o (IF Has(ev, "calls") THEN WCallTags(ev.calls, Len(prefix), Len(prefix), 1) ELSE << >>)
